@@ -1,4 +1,352 @@
-From Coq Require Import List Arith Reals.
-From MV Require Import Common.Num Common.NumR Pure.Measures Pure.Measures_Proofs.
-Theorem C18_placeholder : True. Proof. exact placeholder_c18. Qed.
-Print Assumptions C18_placeholder.
+(* C18 - Moment-imposing transforms hit their target and keep what they promise to keep; the statistics, norms and
+   metrics equal their textbook definitions.
+   Only statements, each closed by [exact] of a lemma proved in Pure/Measures_Proofs.v (reals, NumR instance of the
+   model in Pure/Measures.v) or Pure/Measures_Refuted.v (exact-rational witnesses).
+
+   Reading guide.  [W : option (list R)] is the Python [weights] argument ([None] = unweighted);
+   [wl x W] are the weights actually used (unit weights for [None]); [wf x W] says that the statistic is defined:
+   as many weights as samples and a non-zero total weight (for [None]: at least one sample).  [None] as a RESULT
+   stands for "no finite answer" (the code raises, or returns nan/inf): those branches are stated explicitly.
+   [Mu x w] = sum x_i w_i / sum w_i, [CM k x w] = sum w_i (x_i - Mu)^k / sum w_i, [Rsum] = sum of a list.
+   sqrt is not axiomatised: it is a parameter [sqrtf] of the model, and the theorems that need it carry the
+   facts used about it as premises.
+
+   NOT covered by theorems (oracle-only, see harness/props/c18.py): general p-norms, minkowski, impose_moment,
+   weighted median/mad and the trimmed statistics with their impose_* forms. *)
+From Coq Require Import List Arith ZArith Reals.
+From MV Require Import Common.Num Common.NumR Common.C18_Sums Pure.Measures Pure.Measures_Proofs Pure.Measures_Refuted.
+Import ListNotations.
+Open Scope R_scope.
+
+(* ------------------------------------------------------------------ definitions are textbook *)
+Theorem C18_mean_textbook : forall x W, wf x W -> mean NumR x W = Some (Mu x (wl x W)).
+Proof. exact mean_textbook. Qed.
+Print Assumptions C18_mean_textbook.
+
+Theorem C18_mean_weighted_sum : forall x w,
+  length x = length w -> Rsum w <> 0 -> mean NumR x (Some w) = Some (dotR x w / Rsum w).
+Proof. exact mean_weighted_sum. Qed.
+Print Assumptions C18_mean_weighted_sum.
+
+Theorem C18_mean_unweighted : forall x, x <> [] -> mean NumR x None = Some (Rsum x / INR (length x)).
+Proof. exact mean_unweighted. Qed.
+Print Assumptions C18_mean_unweighted.
+
+Theorem C18_mean_undefined_zero_weight : forall x w, Rsum w = 0 -> mean NumR x (Some w) = None.
+Proof. exact mean_undefined_zero_weight. Qed.
+Print Assumptions C18_mean_undefined_zero_weight.
+
+Theorem C18_moment_textbook : forall x W k, wf x W -> (2 <= k)%nat -> moment NumR x W k = Some (CM k x (wl x W)).
+Proof. exact moment_textbook. Qed.
+Print Assumptions C18_moment_textbook.
+
+Theorem C18_variance_textbook : forall x W, wf x W -> variance NumR x W = Some (CM 2 x (wl x W)).
+Proof. exact variance_textbook. Qed.
+Print Assumptions C18_variance_textbook.
+
+Theorem C18_spread_textbook : forall l r, spread NumR l = Some r ->
+  exists hi lo, In hi l /\ In lo l /\ (forall y, In y l -> lo <= y <= hi) /\ r = hi - lo.
+Proof. exact spread_textbook. Qed.
+Print Assumptions C18_spread_textbook.
+
+Theorem C18_expectation_textbook : forall (A : Type) (f : A -> R) (x : list A) (w : list R),
+  length x = length w -> Rsum w <> 0 ->
+  expectation NumR f x (Some w) 0 = Some (wsum f x w / Rsum w).
+Proof. exact @expectation_textbook. Qed.
+Print Assumptions C18_expectation_textbook.
+
+Theorem C18_expectation_unweighted : forall (A : Type) (f : A -> R) (x : list A) tol,
+  x <> [] -> expectation NumR f x None tol = Some (Rsum (map f x) / INR (length x)).
+Proof. exact @expectation_unweighted. Qed.
+Print Assumptions C18_expectation_unweighted.
+
+Theorem C18_expectation_undefined : forall (A : Type) (f : A -> R) (x : list A) (w : list R),
+  Forall (fun t => t = 0) w -> expectation NumR f x (Some w) 0 = None.
+Proof. exact @expectation_undefined. Qed.
+Print Assumptions C18_expectation_undefined.
+
+(* ------------------------------------------------------------------ ess_* ignore zero-weight points *)
+Theorem C18_ess_minimum_spec : forall (A : Type) (f : A -> R) (x : list A) (w : list R) r,
+  ess_minimum NumR f x (Some w) 0 = Some r ->
+  (exists p, In p (combine x w) /\ 0 < snd p /\ r = f (fst p)) /\
+  (forall p, In p (combine x w) -> 0 < snd p -> r <= f (fst p)).
+Proof. exact @ess_minimum_spec. Qed.
+Print Assumptions C18_ess_minimum_spec.
+
+Theorem C18_ess_maximum_spec : forall (A : Type) (f : A -> R) (x : list A) (w : list R) r,
+  ess_maximum NumR f x (Some w) 0 = Some r ->
+  (exists p, In p (combine x w) /\ 0 < snd p /\ r = f (fst p)) /\
+  (forall p, In p (combine x w) -> 0 < snd p -> f (fst p) <= r).
+Proof. exact @ess_maximum_spec. Qed.
+Print Assumptions C18_ess_maximum_spec.
+
+Theorem C18_ess_ptp_spec : forall (A : Type) (f : A -> R) (x : list A) (w : list R) r,
+  ess_ptp NumR f x (Some w) 0 = Some r ->
+  exists hi lo, ess_maximum NumR f x (Some w) 0 = Some hi /\ ess_minimum NumR f x (Some w) 0 = Some lo /\ r = hi - lo.
+Proof. exact @ess_ptp_spec. Qed.
+Print Assumptions C18_ess_ptp_spec.
+
+Theorem C18_ess_minimum_defined : forall (A : Type) (f : A -> R) (x : list A) (w : list R),
+  ess_minimum NumR f x (Some w) 0 = None <-> (forall p, In p (combine x w) -> ~ 0 < snd p).
+Proof. exact @ess_minimum_defined. Qed.
+Print Assumptions C18_ess_minimum_defined.
+
+Theorem C18_ess_ignores_zero_weight : forall (A : Type) (f : A -> R) (x1 x2 : list A) (w1 w2 : list R) (a : A),
+  length x1 = length w1 ->
+  values NumR f (x1 ++ a :: x2) (Some (w1 ++ 0 :: w2)) 0 = values NumR f (x1 ++ x2) (Some (w1 ++ w2)) 0.
+Proof. exact @ess_ignores_zero_weight. Qed.
+Print Assumptions C18_ess_ignores_zero_weight.
+
+(* ------------------------------------------------------------------ impose_mean *)
+Theorem C18_impose_mean_hits : forall m x W, wf x W ->
+  exists y, impose_mean NumR m x W = Some y /\ length y = length x /\ mean NumR y W = Some m.
+Proof. exact impose_mean_hits. Qed.
+Print Assumptions C18_impose_mean_hits.
+
+Theorem C18_impose_mean_keeps_spread : forall m x W, wf x W ->
+  exists y, impose_mean NumR m x W = Some y /\ spread NumR y = spread NumR x.
+Proof. exact impose_mean_keeps_spread. Qed.
+Print Assumptions C18_impose_mean_keeps_spread.
+
+Theorem C18_impose_mean_keeps_variance : forall m x W, wf x W ->
+  exists y, impose_mean NumR m x W = Some y /\ variance NumR y W = variance NumR x W.
+Proof. exact impose_mean_keeps_variance. Qed.
+Print Assumptions C18_impose_mean_keeps_variance.
+
+Theorem C18_impose_mean_keeps_moments : forall m x W k, wf x W ->
+  exists y, impose_mean NumR m x W = Some y /\ moment NumR y W k = moment NumR x W k.
+Proof. exact impose_mean_keeps_moments. Qed.
+Print Assumptions C18_impose_mean_keeps_moments.
+
+Theorem C18_impose_mean_undefined : forall m x W, mean NumR x W = None -> impose_mean NumR m x W = None.
+Proof. exact impose_mean_undefined. Qed.
+Print Assumptions C18_impose_mean_undefined.
+
+(* ------------------------------------------------------------------ impose_variance / impose_std / impose_spread *)
+Theorem C18_impose_variance_hits : forall sqrtf : R -> R,
+  (forall a, 0 <= a -> sqrtf a * sqrtf a = a) ->
+  forall v x W sv, wf x W -> variance NumR x W = Some sv -> 0 < sv -> 0 <= v ->
+  exists y, impose_variance NumR sqrtf v x W = Some y /\ length y = length x /\
+            variance NumR y W = Some v /\ mean NumR y W = mean NumR x W.
+Proof. exact impose_variance_hits. Qed.
+Print Assumptions C18_impose_variance_hits.
+
+Theorem C18_impose_std_hits : forall sqrtf : R -> R,
+  (forall a, 0 <= a -> sqrtf a * sqrtf a = a) -> (forall a, 0 <= a -> 0 <= sqrtf a) ->
+  forall s x W sv, wf x W -> variance NumR x W = Some sv -> 0 < sv -> 0 <= s ->
+  exists y, impose_std NumR sqrtf s x W = Some y /\ length y = length x /\
+            std NumR sqrtf y W = Some s /\ variance NumR y W = Some (s * s) /\
+            mean NumR y W = mean NumR x W.
+Proof. exact impose_std_hits. Qed.
+Print Assumptions C18_impose_std_hits.
+
+Theorem C18_impose_variance_degenerate : forall (sqrtf : R -> R) v x W, wf x W -> variance NumR x W = Some 0 ->
+  impose_variance NumR sqrtf v x W = (if Req_EM_T v 0 then Some x else None).
+Proof. exact impose_variance_degenerate. Qed.
+Print Assumptions C18_impose_variance_degenerate.
+
+Theorem C18_impose_variance_negative : forall (sqrtf : R -> R) v x W sv,
+  wf x W -> variance NumR x W = Some sv -> 0 < sv -> v < 0 -> impose_variance NumR sqrtf v x W = None.
+Proof. exact impose_variance_negative. Qed.
+Print Assumptions C18_impose_variance_negative.
+
+Theorem C18_impose_spread_hits : forall r x W sr, wf x W -> spread NumR x = Some sr -> sr <> 0 -> 0 <= r ->
+  exists y, impose_spread NumR r x W = Some y /\ length y = length x /\
+            spread NumR y = Some r /\ mean NumR y W = mean NumR x W.
+Proof. exact impose_spread_hits. Qed.
+Print Assumptions C18_impose_spread_hits.
+
+Theorem C18_impose_spread_degenerate : forall r x W, wf x W -> spread NumR x = Some 0 -> impose_spread NumR r x W = None.
+Proof. exact impose_spread_degenerate. Qed.
+Print Assumptions C18_impose_spread_degenerate.
+
+(* ------------------------------------------------------------------ normalize / impose_sum / impose_weight_norm *)
+Theorem C18_normalize_hits : forall w mass zs zm, Rsum w <> 0 -> (mass <> 0 \/ zs = false) ->
+  exists r, normalize NumR w mass zs zm = Some r /\ length r = length w /\ Rsum r = mass.
+Proof. exact normalize_hits. Qed.
+Print Assumptions C18_normalize_hits.
+
+Theorem C18_impose_sum_hits : forall w mass zs zm, Rsum w <> 0 -> (mass <> 0 \/ zs = false) ->
+  exists r, impose_sum NumR mass w zs zm = Some r /\ length r = length w /\ Rsum r = mass.
+Proof. exact impose_sum_hits. Qed.
+Print Assumptions C18_impose_sum_hits.
+
+Theorem C18_normalize_zsum_hits : forall w zm, Rsum (map Rabs w) <> 0 ->
+  exists r, normalize NumR w 0 true zm = Some r /\ length r = length w /\ Rsum r = 0.
+Proof. exact normalize_zsum_hits. Qed.
+Print Assumptions C18_normalize_zsum_hits.
+
+Theorem C18_normalize_degenerate : forall w mass zm, Rsum (map Rabs w) = 0 \/ Rsum w = 0 ->
+  normalize NumR w mass false zm = Some (zeros NumR w).
+Proof. exact normalize_degenerate. Qed.
+Print Assumptions C18_normalize_degenerate.
+
+Theorem C18_impose_weight_norm_hits : forall x w mass, length x = length w -> Rsum w <> 0 -> mass <> 0 ->
+  exists y wts, impose_weight_norm NumR x w mass = Some (y, wts) /\
+                Rsum wts = mass /\ mean NumR y (Some wts) = mean NumR x (Some w).
+Proof. exact impose_weight_norm_hits. Qed.
+Print Assumptions C18_impose_weight_norm_hits.
+
+(* ------------------------------------------------------------------ impose_support / impose_unweighted *)
+Theorem C18_impose_support_spec : forall index x w,
+  length x = length w -> Rsum w <> 0 -> Rsum (keep_weights NumR index w) <> 0 ->
+  exists y wts c,
+    impose_support NumR index x w = Some (y, wts) /\ c <> 0 /\ length wts = length w /\ length y = length x /\
+    (forall i, (i < length w)%nat ->
+       nth i wts 0 = if designated index (length w) i then nth i w 0 * c else 0) /\
+    Rsum wts = Rsum w /\ mean NumR y (Some wts) = mean NumR x (Some w).
+Proof. exact impose_support_spec. Qed.
+Print Assumptions C18_impose_support_spec.
+
+Theorem C18_impose_support_zeroes_exactly : forall index x w,
+  length x = length w -> Rsum w <> 0 -> Rsum (keep_weights NumR index w) <> 0 ->
+  exists y wts, impose_support NumR index x w = Some (y, wts) /\
+    forall i, (i < length w)%nat ->
+      (nth i wts 0 = 0 <-> (designated index (length w) i = false \/ nth i w 0 = 0)).
+Proof. exact impose_support_zeroes_exactly. Qed.
+Print Assumptions C18_impose_support_zeroes_exactly.
+
+Theorem C18_impose_support_undefined : forall index x w,
+  Rsum w <> 0 -> Rsum (keep_weights NumR index w) = 0 -> impose_support NumR index x w = None.
+Proof. exact impose_support_undefined. Qed.
+Print Assumptions C18_impose_support_undefined.
+
+Theorem C18_impose_unweighted_spec : forall ix x w nullable,
+  length x = length w -> Rsum w <> 0 -> Rsum (drop_weights NumR (Some ix) w) <> 0 ->
+  exists y wts c,
+    impose_unweighted NumR (Some ix) x w nullable = Some (y, wts) /\ c <> 0 /\ length wts = length w /\
+    length y = length x /\
+    (forall i, (i < length w)%nat ->
+       nth i wts 0 = if in_index (length w) ix i then 0 else nth i w 0 * c) /\
+    Rsum wts = Rsum w /\ mean NumR y (Some wts) = mean NumR x (Some w).
+Proof. exact impose_unweighted_spec. Qed.
+Print Assumptions C18_impose_unweighted_spec.
+
+Theorem C18_impose_unweighted_zeroes_exactly : forall ix x w nullable,
+  length x = length w -> Rsum w <> 0 -> Rsum (drop_weights NumR (Some ix) w) <> 0 ->
+  exists y wts, impose_unweighted NumR (Some ix) x w nullable = Some (y, wts) /\
+    forall i, (i < length w)%nat ->
+      (nth i wts 0 = 0 <-> (in_index (length w) ix i = true \/ nth i w 0 = 0)).
+Proof. exact impose_unweighted_zeroes_exactly. Qed.
+Print Assumptions C18_impose_unweighted_zeroes_exactly.
+
+(* ------------------------------------------------------------------ impose_collapse *)
+Theorem C18_impose_collapse_keeps_mean : forall pairs x w y wts,
+  length x = length w -> impose_collapse NumR pairs x w = Some (y, wts) ->
+  length wts = length w /\ length y = length x /\ mean NumR y (Some wts) = mean NumR x (Some w).
+Proof. exact impose_collapse_keeps_mean. Qed.
+Print Assumptions C18_impose_collapse_keeps_mean.
+
+(* FULL STATEMENT (refuted, known finding "cyclic-pairs-total-weight"):
+     forall pairs x w y wts, impose_collapse pairs x w = Some (y, wts) -> sum wts = sum w. *)
+Theorem C18_impose_collapse_keeps_total_refuted :
+  exists (pairs : list (Z * Z)) (x w y wts : list QArith_base.Q),
+    impose_collapse NumQ pairs x w = Some (y, wts) /\ ~ (QArith_base.Qeq (nsum NumQ wts) (nsum NumQ w)).
+Proof. exact impose_collapse_keeps_total_refuted. Qed.
+Print Assumptions C18_impose_collapse_keeps_total_refuted.
+
+(* what does hold: the total is preserved whenever tools.connected leaves no key inside its own member set
+   (missing for the full statement: pair sets with a self pair, a repeated/symmetric pair or a cycle) *)
+Theorem C18_impose_collapse_keeps_total_partial : forall pairs ps x w y wts,
+  length x = length w ->
+  all_some (map (pair_index (length w)) pairs) = Some ps ->
+  Forall (fun e => ~ In (fst e) (snd e)) (connected ps) ->
+  impose_collapse NumR pairs x w = Some (y, wts) ->
+  Rsum wts = Rsum w.
+Proof. exact impose_collapse_keeps_total_partial. Qed.
+Print Assumptions C18_impose_collapse_keeps_total_partial.
+
+(* FULL STATEMENT (refuted, known finding "chained-pairs-not-merged"):
+     after impose_collapse, of the two ends of every selected pair (i,j), i<>j, at most one carries weight. *)
+Theorem C18_impose_collapse_pair_zeroed_refuted :
+  exists (pairs : list (Z * Z)) (x w y wts : list QArith_base.Q) (i j : nat),
+    impose_collapse NumQ pairs x w = Some (y, wts) /\
+    In (Z.of_nat i, Z.of_nat j) pairs /\ i <> j /\
+    ~ (QArith_base.Qeq (nth i wts (QArith_base.Qmake 0 1)) (QArith_base.Qmake 0 1)) /\
+    ~ (QArith_base.Qeq (nth j wts (QArith_base.Qmake 0 1)) (QArith_base.Qmake 0 1)).
+Proof. exact impose_collapse_pair_zeroed_refuted. Qed.
+Print Assumptions C18_impose_collapse_pair_zeroed_refuted.
+
+(* what does hold: when no member of a set is also a key (tools.connected merged every component), every member
+   ends with weight exactly 0 (missing: pair sets in which a later pair links two existing dict entries) *)
+Theorem C18_impose_collapse_zeroes_members_partial : forall pairs ps x w y wts,
+  all_some (map (pair_index (length w)) pairs) = Some ps ->
+  (forall e e', In e (connected ps) -> In e' (connected ps) -> ~ In (fst e) (snd e')) ->
+  impose_collapse NumR pairs x w = Some (y, wts) ->
+  forall e k, In e (connected ps) -> In k (snd e) -> nth k wts 0 = 0.
+Proof. exact impose_collapse_zeroes_members_partial. Qed.
+Print Assumptions C18_impose_collapse_zeroes_members_partial.
+
+Theorem C18_impose_collapse_out_of_range : forall pairs ps x w,
+  all_some (map (pair_index (length w)) pairs) = Some ps ->
+  in_range (length w) (connected ps) = false -> impose_collapse NumR pairs x w = None.
+Proof. exact impose_collapse_out_of_range. Qed.
+Print Assumptions C18_impose_collapse_out_of_range.
+
+(* ------------------------------------------------------------------ norms and point-to-point metrics *)
+Theorem C18_Lnorm1_textbook : forall w, Lnorm1 NumR w = Rsum (map Rabs w).
+Proof. exact Lnorm1_textbook. Qed.
+Print Assumptions C18_Lnorm1_textbook.
+
+Theorem C18_Lnorm0_textbook : forall w, Lnorm0 NumR w = INR (length (filter (fun a => negb (Reqb a 0)) w)).
+Proof. exact Lnorm0_textbook. Qed.
+Print Assumptions C18_Lnorm0_textbook.
+
+Theorem C18_LnormInf_textbook : forall w M, LnormInf NumR w = Some M ->
+  (exists a, In a w /\ M = Rabs a) /\ (forall a, In a w -> Rabs a <= M).
+Proof. exact LnormInf_textbook. Qed.
+Print Assumptions C18_LnormInf_textbook.
+
+Theorem C18_LnormInf_defined : forall w, LnormInf NumR w = None <-> w = [].
+Proof. exact LnormInf_defined. Qed.
+Print Assumptions C18_LnormInf_defined.
+
+Theorem C18_Lnorm2_squared : forall sqrtf : R -> R, (forall a, 0 <= a -> sqrtf a * sqrtf a = a) ->
+  forall w, Lnorm2 NumR sqrtf w * Lnorm2 NumR sqrtf w = Rsum (map (fun a => a * a) w).
+Proof. exact Lnorm2_squared. Qed.
+Print Assumptions C18_Lnorm2_squared.
+
+Theorem C18_manhattan_textbook : forall x y,
+  manhattan_d NumR (absdiff_pair NumR x y) = Rsum (map (fun p => Rabs (fst p - snd p)) (combine x y)).
+Proof. exact manhattan_textbook. Qed.
+Print Assumptions C18_manhattan_textbook.
+
+Theorem C18_hamming_textbook : forall x y,
+  hamming_d NumR (absdiff_pair NumR x y)
+  = INR (length (filter (fun p => negb (Reqb (fst p) (snd p))) (combine x y))).
+Proof. exact hamming_textbook. Qed.
+Print Assumptions C18_hamming_textbook.
+
+Theorem C18_chebyshev_textbook : forall x y M, chebyshev_d NumR (absdiff_pair NumR x y) = Some M ->
+  (exists p, In p (combine x y) /\ M = Rabs (fst p - snd p)) /\
+  (forall p, In p (combine x y) -> Rabs (fst p - snd p) <= M).
+Proof. exact chebyshev_textbook. Qed.
+Print Assumptions C18_chebyshev_textbook.
+
+Theorem C18_euclidean_squared : forall sqrtf : R -> R, (forall a, 0 <= a -> sqrtf a * sqrtf a = a) ->
+  forall x y,
+  euclidean_d NumR sqrtf (absdiff_pair NumR x y) * euclidean_d NumR sqrtf (absdiff_pair NumR x y)
+  = Rsum (map (fun p => (fst p - snd p) * (fst p - snd p)) (combine x y)).
+Proof. exact euclidean_squared. Qed.
+Print Assumptions C18_euclidean_squared.
+
+(* ------------------------------------------------------------------ non-vacuity *)
+(* the premises about sqrt are met by the real square root *)
+Example C18_sqrt_premises_satisfiable :
+  (forall a, 0 <= a -> sqrt a * sqrt a = a) /\ (forall a, 0 <= a -> 0 <= sqrt a).
+Proof. split; intros a H; [now apply sqrt_sqrt | apply sqrt_pos]. Qed.
+
+(* the premises about the data are met by a small weighted sample with a zero weight and a negative position *)
+Example C18_data_premises_satisfiable :
+  let x := [-1; 2; 5] in let w := [1; 0; 3] in
+  wf x (Some w) /\ wf x None /\ Rsum (keep_weights NumR (Some [0; -1]%Z) w) <> 0 /\
+  Rsum (drop_weights NumR (Some [1]%Z) w) <> 0 /\ CM 2 x w <> 0.
+Proof. exact data_premises. Qed.
+
+(* the executable model does compute the expected transforms (exact rationals) *)
+Example C18_model_runs :
+  option_map (map QArith_base.Qred) (impose_variance NumQ Qsqrt_approx (QArith_base.Qmake 4 1)
+     [QArith_base.Qmake 1 1; QArith_base.Qmake 2 1; QArith_base.Qmake 3 1]
+     (Some [QArith_base.Qmake 1 1; QArith_base.Qmake 0 1; QArith_base.Qmake 1 1]))
+  = Some [QArith_base.Qmake 0 1; QArith_base.Qmake 2 1; QArith_base.Qmake 4 1].
+Proof. exact (proj1 (proj2 model_runs)). Qed.
